@@ -471,6 +471,9 @@ func (w *World) lightRestrict(in *Inst, lc *lightClient, st *Step) {
 		return
 	}
 	lc.H, lc.P = rh, rp
+	// what the restriction returned (its targets are the caller's wants) must survive the later updates and undos
+	w.mon.retainH(in, "restricted hashes", rh)
+	w.mon.retainProof(in, "restricted proof", &lc.P)
 	w.compareHolding(in, lc, st, w.rows(w.n), props, "after GetProofSubset")
 	w.lightVerify(in, lc, props, "after GetProofSubset")
 }
